@@ -5,6 +5,7 @@
 (*   Mode = "nest": exhaustive (BFS): every well-nested stack of at most MaxStack contexts out of the *)
 (*                  three context managers, closed normally or by an exception unwinding n of them    *)
 (*   Mode = "walk": tlc -simulate: random sequences of GenDepth operations incl. direct calls          *)
+(*   Mode = "direct": exhaustive: every sequence of <= GenDepth direct attach/detach calls (pragmas, regions) *)
 (* For pragma operations the generator fixes only post/what; the harness picks the node classes.     *)
 EXTENDS AttachDetach, Json
 CONSTANTS GenDepth, Mode
@@ -45,8 +46,17 @@ WalkNext ==
 
 Emit == (stack' = <<>> /\ (Mode = "nest" \/ (att' = {} /\ Len(hist') >= GenDepth))) => PrintT(<<"OPS", ToJson(hist')>>)
 
+\* "direct": exhaustive (BFS): every sequence of at most GenDepth direct attach/detach calls for pragmas and regions
+\* (crossing orders included); the harness appends the detach calls that make the sequence Balanced
+DirectOps == {x \in NestOps : x.what # "dfa"}
+DirectStep(x) == (Attach(x) /\ Rec(E("attach", x, 0))) \/ (Detach(x) /\ Rec(E("detach", x, 0)))
+DirectNext == /\ Len(hist) < GenDepth
+              /\ closing' = FALSE
+              /\ \E x \in DirectOps : DirectStep(x)
+              /\ PrintT(<<"OPS", ToJson(hist')>>)
+
 GNext == /\ Len(hist) < GenDepth + MaxStack + 12
-         /\ IF Mode = "nest" THEN NestNext ELSE WalkNext
-         /\ Emit
+         /\ IF Mode = "direct" THEN DirectNext
+            ELSE (IF Mode = "nest" THEN NestNext ELSE WalkNext) /\ Emit
 GSpec == GInit /\ [][GNext]_gvars
 =============================================================================
